@@ -232,6 +232,12 @@ ProcessBlock(p, i, h, evs) ==
     IF p.phase < Off \/ p.done THEN p   \* Byzantine slot / no active DKG: events for a non-existent eon are ignored
     ELSE HandleEvents(ShiftPhase(p, i, h), i, evs)
 
+(* one SyncAppWithDB call (fetchEvents2): every closed block above the keyper's sync position *)
+RECURSIVE ProcessBlocks(_, _, _, _)
+ProcessBlocks(p, i, from, bs) ==
+    IF bs = <<>> THEN p
+    ELSE ProcessBlocks(IF Head(bs).h > from THEN ProcessBlock(p, i, Head(bs).h, Head(bs).evs) ELSE p, i, from, Tail(bs))
+
 ----------------------------------------------------------------------------
 (* the world: chain + honest keypers; ops *)
 
@@ -240,6 +246,10 @@ InitState ==
      stage |-> 0,
      rej   |-> 0,
      rl    |-> [i \in K |-> 0],    \* ghost: block in which keyper i re-created its in-memory state (0 = never)
+     lags  |-> 0,                   \* number of "lag" ops so far
+     skip  |-> [i \in K |-> FALSE], \* keyper i does not call SyncAppWithDB after the open block
+     sync  |-> [i \in K |-> IF i \in Honest THEN 0 ELSE -1],   \* last block keyper i has applied
+     backlog |-> <<>>,              \* closed blocks [h, evs] that some honest keyper has not applied yet
      kp    |-> [i \in K |-> IF i \in Honest THEN EonStarted(i) ELSE NoKeyper],
      app   |-> AppInit,
      blk   |-> <<>>]
@@ -248,7 +258,10 @@ InitState ==
    "post": honest keyper s sends the head of its outbox (fx.SendShutterMessages, one message);
    "reload": honest keyper s discards its ShuttermintState (process restart, or Invalidate after a
    database error) and will load it from its database: everything is in the database, so this
-   changes nothing; "end": the block is closed and every honest keyper processes it. *)
+   changes nothing; "lag": honest keyper s will not sync after this block, a later SyncAppWithDB
+   call catches up on several blocks (one transaction each, with the heights of the blocks);
+   "end": the block is closed and every honest keyper that does not lag applies every closed
+   block it has not applied yet. *)
 Op(o, s, vals) == [op |-> o, s |-> s, vals |-> vals]
 KindOf(o) == CASE o.op = "bcommit" -> "commit" [] o.op = "beval" -> "eval"
                [] o.op = "bacc" -> "acc" [] o.op = "bapol" -> "apol" [] OTHER -> Blank
@@ -262,7 +275,8 @@ Rank(o) ==
       [] o.op = "bapol"   -> 4 * (o.s - 1) + 4
       [] o.op = "post"    -> 4 * N + o.s
       [] o.op = "reload"  -> 5 * N + o.s
-      [] o.op = "end"     -> 6 * N + 1
+      [] o.op = "lag"     -> 6 * N + o.s
+      [] o.op = "end"     -> 7 * N + 1
 
 Final(s) == s.h > LastBlock
 
@@ -295,8 +309,9 @@ InWindow(s, o) ==
 
 Reloads(s) == Cardinality({i \in K : s.rl[i] # 0})
 
-OpEnabled(s, o, maxRej, windows, maxReload) ==
+OpEnabled(s, o, maxRej, windows, maxReload, maxLag) ==
     /\ ~Final(s)
+    /\ o.op = "lag" => (o.s \in Honest /\ ~s.skip[o.s] /\ s.lags < maxLag /\ s.h < 3 * PhaseLen)
     /\ o.op = "reload" => (o.s \in Honest /\ ~s.kp[o.s].done /\ s.rl[o.s] = 0 /\ Reloads(s) < maxReload)
     /\ IF o.op = "post" THEN o.s \in Honest /\ s.kp[o.s].outbox # <<>> /\ Rank(o) >= s.stage
        ELSE Rank(o) > s.stage
@@ -310,9 +325,19 @@ NoMsg == Msg(Blank, 0, BlankVals)
    that was delivered, the event the keypers will decode from the block (NoMsg if none) *)
 ApplyOp(s, o) ==
     IF o.op = "end" THEN
-        LET process == s.h < LastBlock IN     \* the run stops after the block that carries the votes
+        LET process == s.h < LastBlock      \* the run stops after the block that carries the votes
+            all == Append(s.backlog, [h |-> s.h, evs |-> s.blk])
+            does(i) == process /\ i \in Honest /\ ~s.skip[i]
+            sync1 == [i \in K |-> IF does(i) THEN s.h ELSE s.sync[i]]
+            low == CHOOSE x \in {sync1[i] : i \in Honest} \cup {s.h} : \A y \in {sync1[i] : i \in Honest} \cup {s.h} : x <= y
+        IN
         [st  |-> [s EXCEPT !.h = @ + 1, !.stage = 0, !.blk = <<>>,
-                           !.kp = [i \in K |-> IF process THEN ProcessBlock(s.kp[i], i, s.h, s.blk) ELSE s.kp[i]]],
+                           !.kp = [i \in K |-> IF does(i) THEN ProcessBlocks(s.kp[i], i, s.sync[i], all) ELSE s.kp[i]],
+                           !.sync = sync1, !.skip = [i \in K |-> FALSE],
+                           !.backlog = SelectSeq(all, LAMBDA b : b.h > low)],
+         out |-> [code |-> CodeNone, msg |-> NoMsg, ev |-> NoMsg]]
+    ELSE IF o.op = "lag" THEN
+        [st  |-> [s EXCEPT !.skip[o.s] = TRUE, !.lags = @ + 1, !.stage = Rank(o)],
          out |-> [code |-> CodeNone, msg |-> NoMsg, ev |-> NoMsg]]
     ELSE IF o.op = "reload" THEN
         [st  |-> [s EXCEPT !.rl[o.s] = s.h, !.stage = Rank(o)],
